@@ -19,7 +19,7 @@ use vcommon::{pick_index, Bulk, Ctx, Verdict};
 /// `depth` operations is executed inside the oracle (every sequence from scratch on a fresh channel).
 #[derive(Clone, Debug, Serialize, Deserialize)]
 pub struct TreeCase {
-    cap: u8,
+    cap: u32,
     budget: u8,
     depth: u8,
     prefix: Vec<Op>,
@@ -27,19 +27,21 @@ pub struct TreeCase {
 
 #[derive(Clone, Debug, Serialize, Deserialize)]
 pub struct SeqCase {
-    cap: u8,
+    cap: u32,
     budget: u8,
     repoll: bool,
     ops: Vec<Op>,
 }
 
-/// Alphabet for a capacity: write k in {1,2,cap,cap+1}, read n in {0,1,2,cap}, flush, shutdown, drops.
-fn alphabet(cap: u8) -> Vec<Op> {
+/// Alphabet for a capacity: write k in {1,2,cap,cap+1}, one vectored write of the slices [1, empty, cap],
+/// read n in {0,1,2,cap}, flush, shutdown, drops.
+fn alphabet(cap: u32) -> Vec<Op> {
     let mut ops = vec![];
     let mut ks = vec![1, 2, cap, cap + 1];
     ks.sort();
     ks.dedup();
     ops.extend(ks.into_iter().map(Op::W));
+    ops.push(Op::Wv(3, [1, 0, cap, 0]));
     let mut ns = vec![0, 1, 2, cap];
     ns.sort();
     ns.dedup();
@@ -63,7 +65,7 @@ impl tree::Grammar for Grammar12 {
     }
     fn next(&self, s: u8, op: usize) -> Option<u8> {
         match self.ops[op] {
-            Op::W(_) | Op::F | Op::S => (s & 1 == 0).then_some(s),
+            Op::W(_) | Op::Wv(..) | Op::F | Op::S => (s & 1 == 0).then_some(s),
             Op::DW => (s & 1 == 0).then_some(s | 1),
             Op::R(_) | Op::Rp(..) => (s & 2 == 0).then_some(s),
             Op::DR => (s & 2 == 0).then_some(s | 2),
@@ -209,9 +211,10 @@ fn check_seq(case: &SeqCase) -> Verdict {
     };
     let out = chan::run(cfg, &case.ops, true);
     acc.add(&out.stats);
-    let mut bytes = vec![case.cap, case.budget, case.repoll as u8];
+    let mut bytes = vec![case.budget, case.repoll as u8];
+    bytes.extend_from_slice(&case.cap.to_le_bytes());
     for op in &case.ops {
-        bytes.extend_from_slice(&op.code());
+        op.code(&mut bytes);
     }
     let fp = vcommon::fnv1a(&bytes);
     if let chan::End::Failed(i, fails) = out.end {
@@ -235,7 +238,7 @@ fn check_seq(case: &SeqCase) -> Verdict {
 }
 
 /// (capacity, budget, depth) configurations, smallest first.
-fn tree_cases(configs: &[(u8, u8, u8)], prefix_len: usize, worker: usize, workers: usize) -> impl Iterator<Item = TreeCase> {
+fn tree_cases(configs: &[(u32, u8, u8)], prefix_len: usize, worker: usize, workers: usize) -> impl Iterator<Item = TreeCase> {
     let mut out = vec![];
     let mut i = 0usize;
     for (cap, budget, depth) in configs.iter().copied() {
@@ -263,8 +266,8 @@ fn tree_cases(configs: &[(u8, u8, u8)], prefix_len: usize, worker: usize, worker
 }
 
 /// Random sequences are decoded from raw integers (cheap to generate, shrink towards the simplest
-/// operation): low byte selects the operation by weight, the next bytes its arguments.
-fn size_of(a: u8, cap: u8) -> u8 {
+/// operation): low byte selects the operation by weight, the other bytes its arguments.
+fn size_of(a: u8, cap: u32) -> u32 {
     match a {
         0..=19 => 0,
         20..=69 => 1,
@@ -272,18 +275,45 @@ fn size_of(a: u8, cap: u8) -> u8 {
         100..=114 => cap.saturating_sub(1),
         115..=164 => cap,
         165..=194 => cap + 1,
-        _ => a % (cap + 2),
+        _ => a as u32 % (cap + 2),
     }
 }
 
-fn decode_op(raw: u32, cap: u8) -> Op {
+/// Sizes for the large tier: around the capacity and around 4096 / 8192 / 16384 / 65536 (+-1), capped at cap+1.
+fn size_large(a: u8, x: u16, cap: u32) -> u32 {
+    const MARKS: [u32; 12] = [4095, 4096, 4097, 8191, 8192, 8193, 16383, 16384, 16385, 65535, 65536, 65537];
+    let v = match a {
+        0..=9 => 0,
+        10..=39 => 1,
+        40..=49 => 2,
+        50..=64 => cap.saturating_sub(1),
+        65..=114 => cap,
+        115..=134 => cap + 1,
+        135..=214 => MARKS[(a as usize - 135) % 12],
+        215..=234 => cap / 2 + (x as u32 % 3),
+        _ => x as u32 % (cap + 2),
+    };
+    v.min(cap + 1)
+}
+
+fn decode_op(raw: u32, cap: u32, large: bool) -> Op {
     let sel = (raw & 0xff) as u8;
     let a = ((raw >> 8) & 0xff) as u8;
     let b = ((raw >> 16) & 0xff) as u8;
+    let c = ((raw >> 24) & 0xff) as u8;
+    let x = (raw >> 16) as u16;
+    let size = |a: u8, salt: u8| {
+        if large {
+            size_large(a, x ^ ((salt as u16) << 5), cap)
+        } else {
+            size_of(a, cap)
+        }
+    };
     match sel {
-        0..=99 => Op::W(size_of(a, cap)),
-        100..=194 => Op::R(size_of(a, cap)),
-        195..=208 => Op::Rp(1 + b % 8, size_of(a, cap)),
+        0..=84 => Op::W(size(a, 0)),
+        85..=99 => Op::Wv(1 + c % 4, [size(a, 1), size(b, 2), size(a ^ c, 3), size(b ^ c, 4)]),
+        100..=194 => Op::R(size(a, 0)),
+        195..=208 => Op::Rp(1 + b % 8, size(a, 0)),
         209..=218 => Op::F,
         219..=232 => Op::B(if a < 200 { 1 + a % 6 } else { 64 }),
         233..=243 => Op::Kw,
@@ -291,8 +321,22 @@ fn decode_op(raw: u32, cap: u8) -> Op {
     }
 }
 
+fn assemble(cap: u32, budget: u8, repoll: bool, raw: Vec<u32>, closers: Vec<(u16, u8)>, large: bool) -> SeqCase {
+    let mut ops: Vec<Op> = raw.into_iter().map(|r| decode_op(r, cap, large)).collect();
+    for (pos, c) in closers {
+        let at = pick_index(pos, ops.len() + 1);
+        ops.insert(at, [Op::S, Op::DW, Op::DR][c as usize % 3]);
+    }
+    SeqCase {
+        cap,
+        budget,
+        repoll,
+        ops,
+    }
+}
+
 fn seq_strategy(max_len: usize) -> impl Strategy<Value = SeqCase> {
-    let cap = prop_oneof![3 => 1u8..=4, 3 => 5u8..=16, 2 => 17u8..=64];
+    let cap = prop_oneof![3 => 1u32..=4, 3 => 5u32..=16, 2 => 17u32..=64];
     let budget = prop_oneof![4 => Just(64u8), 5 => 2u8..=5, 1 => Just(1u8), 2 => 6u8..=20];
     let repoll = prop_oneof![3 => Just(true), 1 => Just(false)];
     (
@@ -302,19 +346,26 @@ fn seq_strategy(max_len: usize) -> impl Strategy<Value = SeqCase> {
         proptest::collection::vec(any::<u32>(), 0..=max_len),
         proptest::collection::vec((any::<u16>(), 0u8..3), 0..=3),
     )
-        .prop_map(|(cap, budget, repoll, raw, closers)| {
-            let mut ops: Vec<Op> = raw.into_iter().map(|r| decode_op(r, cap)).collect();
-            for (pos, c) in closers {
-                let at = pick_index(pos, ops.len() + 1);
-                ops.insert(at, [Op::S, Op::DW, Op::DR][c as usize]);
-            }
-            SeqCase {
-                cap,
-                budget,
-                repoll,
-                ops,
-            }
-        })
+        .prop_map(|(cap, budget, repoll, raw, closers)| assemble(cap, budget, repoll, raw, closers, false))
+}
+
+/// Large capacities and single operations around 4 KiB / 8 KiB / 16 KiB / 64 KiB with small coop budgets.
+fn large_strategy(max_len: usize) -> impl Strategy<Value = SeqCase> {
+    let cap = prop_oneof![
+        6 => proptest::sample::select(vec![4095u32, 4096, 4097, 8191, 8192, 8193, 16384, 16385, 65535, 65536, 65537]),
+        2 => 65u32..=70_000,
+        1 => 65u32..=1024,
+    ];
+    let budget = prop_oneof![6 => 2u8..=5, 1 => Just(64u8), 2 => 6u8..=12];
+    let repoll = prop_oneof![3 => Just(true), 1 => Just(false)];
+    (
+        cap,
+        budget,
+        repoll,
+        proptest::collection::vec(any::<u32>(), 0..=max_len),
+        proptest::collection::vec((any::<u16>(), 0u8..3), 0..=2),
+    )
+        .prop_map(|(cap, budget, repoll, raw, closers)| assemble(cap, budget, repoll, raw, closers, true))
 }
 
 fn main() {
@@ -340,12 +391,12 @@ fn main() {
     ctx.assume("short reads / partial writes are allowed (at least one byte when possible); a write accepted after the writer's own shutdown is tolerated by the oracle (the implementation rejects it)");
 
     // (capacity, budget, depth)
-    let (d_gen, d_small) = ctx.pick((8u8, 8u8), (10u8, 9u8));
+    let (d_gen, d_small) = ctx.pick((8u8, 7u8), (10u8, 9u8));
     let mut configs = vec![];
-    for cap in 1u8..=4 {
+    for cap in 1u32..=4 {
         configs.push((cap, 64u8, d_gen));
     }
-    for cap in 1u8..=4 {
+    for cap in 1u32..=4 {
         for b in [2u8, 3] {
             configs.push((cap, b, d_small));
         }
@@ -353,6 +404,8 @@ fn main() {
     ctx.enumerate("enum", |w, ws| tree_cases(&configs, 3, w, ws), check_tree);
     let n = ctx.pick(4_000_000, 40_000_000);
     ctx.prop("random", n, || seq_strategy(200), check_seq);
+    let n = ctx.pick(2_000_000, 20_000_000);
+    ctx.prop("random-large", n, || large_strategy(40), check_seq);
     let n = ctx.pick(12_000, 600_000);
     ctx.prop("threads", n, threads::strategy, threads::check);
     ctx.finish();
